@@ -204,9 +204,7 @@ impl System for Sys {
             ops.push(Op::Retract(h));
         }
         for &h in &live {
-            if self.facts[h].explicit {
-                continue;
-            }
+            // explicit facts may receive logical justifications too: they must stay until retracted explicitly
             for s in subsets(&live, self.addjust_pairs, Some(h)) {
                 if !self.facts[h].justs.contains(&s) {
                     ops.push(Op::AddJustification(h, s));
